@@ -350,7 +350,9 @@ func c07AllKeySets(alphabet []byte, maxLen, maxKeys int) [][]string {
 	return out
 }
 
-// minimal failing inputs of every known defect class + regression seeds; run first
+// minimal failing inputs of every known defect class + regression seeds (the former findings
+// skip-name-below-top-level / prefix-below-skipdir / invalid-root-prefix, repaired by C07-fix-1..3,
+// must PASS); run first
 func c07Corpus() []c07Case {
 	return []c07Case{
 		{Keys: []string{"a/x", "a.b"}, Max: 1},                                       // order-incompatible siblings
@@ -362,8 +364,12 @@ func c07Corpus() []c07Case {
 		{Keys: []string{"a/", "b"}, Max: 1},                                          // directory object, delimiter ""
 		{Keys: []string{"a/", "a/b"}, Prefix: "a/b", Max: 10},                        //
 		{Keys: []string{"a/", "a/b"}, Prefix: "a/", Delim: "/", Max: 10},             // directory object with children
-		{Keys: []string{"x/0", "x/z"}, Skip: []string{"0"}, Max: 10},                 // file named like a skipdir
-		{Keys: []string{"0/m/x", "y"}, Skip: []string{"0"}, Prefix: "0/m/", Max: 10}, // prefix below the skipdir
+		{Keys: []string{"x/0", "x/z"}, Skip: []string{"0"}, Max: 10},                 // fixed: file named like a skipdir
+		{Keys: []string{"x/0/y", "x/z"}, Skip: []string{"0"}, Max: 10},               // fixed: directory so named below the top level
+		{Keys: []string{"0", "z"}, Skip: []string{"0"}, Max: 10},                     // fixed: top-level file so named
+		{Keys: []string{"0/m/x", "y"}, Skip: []string{"0"}, Prefix: "0/m/", Max: 10}, // fixed: prefix below the skipdir
+		{Keys: []string{"0/m/x", "y"}, Skip: []string{"0"}, Prefix: "0/", Max: 10},   //
+		{Keys: []string{"0/m/x", "y"}, Skip: []string{"0"}, Prefix: "0/m", Delim: "/", Max: 10},
 		{Keys: []string{"0/m/x", "y"}, Skip: []string{"0"}, Max: 10},
 		{Keys: []string{"photos/2006/Jan/a.jpg", "photos/2006/Feb/b.jpg", "sample.jpg"}, Delim: "/", Max: 1},
 		{Keys: []string{"photos/2006/Jan/a.jpg", "photos/2006/Feb/b.jpg", "sample.jpg"}, Delim: "/", Prefix: "photos/2006/", Max: 1},
@@ -408,7 +414,7 @@ func c07CaseFromReplay(in map[string]interface{}) c07Case {
 // ------------------------------------------------------------------ the check
 
 func c07Walk(a lib.Args, res *lib.Result) error {
-	r := lib.NewRand(a.Seed).Fork() // Fork: seeds n and n+1 would otherwise give the same stream shifted by one
+	r := lib.NewRandStream(a.Seed, 71)
 	const batch = 200000
 	var cases []c07Case
 	var runs [][]c07Page
